@@ -103,6 +103,12 @@ func TestDrive(t *testing.T) {
 	case "audience":
 		e.Exec = safely(func(op string) string { return execPure(strings.Split(op, "\t")) })
 		AudienceCases(e, r, tier)
+	case "hmac":
+		e.Exec = safely(func(op string) string { return execPure(strings.Split(op, "\t")) })
+		HMACCases(e, r, tier)
+	case "redirect":
+		e.Exec = safely(func(op string) string { return execPure(strings.Split(op, "\t")) })
+		RedirectCases(e, r, tier)
 	case "hist":
 		nh := envInt("FZ_HISTORIES", 40)
 		if tier == "thorough" {
@@ -130,6 +136,10 @@ func execPure(f []string) string {
 		return execScope(f)
 	case "audience":
 		return execAudience(f)
+	case "hmac":
+		return execHMAC(f)
+	case "redirect":
+		return execRedirect(f)
 	}
 	return "bad-op"
 }
